@@ -15,7 +15,8 @@ ASSUME_COMMON = [
 PROPS = {}
 
 PROPS["C16"] = dict(
-    units=[dict(name="c16", src="props/c16.cpp", enum=True)],
+    units=[dict(name="c16-mpi-shim", src="props/c04.cpp", deps=["lib/shim/mpi.h"], flags=["-DVERIF_T=double", "-DVERIF_AS=16", "-I", "/verif/lib/shim", "-pthread"], libs=["-ldl", "-pthread"], quick=dict(shards=2, cases=250), thorough=dict(shards=4, cases=8000)),
+           dict(name="c16", src="props/c16.cpp", enum=True)],
     rule="case = (total, world) checked for every rank (world <= 2048) or 8 structural + 24 sampled ranks "
          "against a 128-bit integer tiling model; non-trivial: world >= 2 and total mod world != 0; "
          "distinct = distinct (total, world, rank set); enumeration: all total <= 300, world <= 64, all ranks",
@@ -83,7 +84,8 @@ PROPS["C13"] = dict(
 )
 
 PROPS["C08"] = dict(
-    units=[dict(name="c08", src="props/c08.cpp", deps=["lib/pwc.hpp"], fuzz=dict(seconds=60))],
+    units=[dict(name="c08-mpi-shim", src="props/c04.cpp", deps=["lib/shim/mpi.h"], flags=["-DVERIF_T=double", "-DVERIF_AS=8", "-I", "/verif/lib/shim", "-pthread"], libs=["-ldl", "-pthread"], quick=dict(shards=2, cases=250), thorough=dict(shards=4, cases=8000)),
+           dict(name="c08", src="props/c08.cpp", deps=["lib/pwc.hpp"], fuzz=dict(seconds=60))],
     rule="3/4 of the cases: chain of 1..30 multi_channel_refine_weights calls (1..40 channels, generated weights incl. "
          "zeros and unnormalised, data all-zero / single / equal / uniform / over +-15 (float) or +-100 decades, beta in "
          "(0,1], minimum weight in [0,1/n)); 1/4: real hep::multi_channel run (1..6 piecewise-constant channels, user "
@@ -327,7 +329,8 @@ PROPS["C10"] = dict(
 )
 
 PROPS["C12"] = dict(
-    units=[dict(name="c12", src="props/c12.cpp", deps=["lib/runners.hpp", "lib/pwc.hpp"])],
+    units=[dict(name="c12-mpi-shim", src="props/c04.cpp", deps=["lib/shim/mpi.h"], flags=["-DVERIF_T=double", "-DVERIF_AS=12", "-I", "/verif/lib/shim", "-pthread"], libs=["-ldl", "-pthread"], quick=dict(shards=2, cases=250), thorough=dict(shards=4, cases=8000)),
+           dict(name="c12", src="props/c12.cpp", deps=["lib/runners.hpp", "lib/pwc.hpp"])],
     rule="case = numeric type x integrator (generated configuration as in C03, mt19937) x iteration list of 0..8 entries "
          "(calls 0..2 or 4..304) x one of three layers: (i) logging callback returning false at invocation 1..n+1 or never, "
          "start checkpoint with 0..2 earlier results; (ii) built-in callback, one of the four modes, target 0, integrand "
@@ -376,7 +379,8 @@ PROPS["C17"] = dict(
 )
 
 PROPS["C19"] = dict(
-    units=[dict(name="c19", src="props/c19.cpp", deps=["lib/pwc.hpp"])],
+    units=[dict(name="c19-mpi-shim", src="props/c04.cpp", deps=["lib/shim/mpi.h"], flags=["-DVERIF_T=double", "-DVERIF_AS=19", "-I", "/verif/lib/shim", "-pthread"], libs=["-ldl", "-pthread"], quick=dict(shards=2, cases=250), thorough=dict(shards=4, cases=8000)),
+           dict(name="c19", src="props/c19.cpp", deps=["lib/pwc.hpp"])],
     rule="case = numeric type x VEGAS (1-3 dims, 2-25 bins, alpha from {1.5, 0, 0.5, 3, random}, default or user grid) or "
          "multi-channel (1-6 PWC channels, beta, minimum weight, default or user weights incl. zeros / unnormalised) x 1..6 "
          "iterations of 0..2 or 10..160 calls x 4 integrand families x scripted engine (all canonical numbers known) x "
@@ -400,7 +404,8 @@ PROPS["C19"] = dict(
 )
 
 PROPS["C20"] = dict(
-    units=[dict(name="c20", src="props/c20.cpp", deps=["lib/runners.hpp", "lib/pwc.hpp"], fuzz=dict(seconds=60))],
+    units=[dict(name="c20-mpi-shim", src="props/c04.cpp", deps=["lib/shim/mpi.h"], flags=["-DVERIF_T=float", "-DVERIF_AS=20", "-I", "/verif/lib/shim", "-pthread"], libs=["-ldl", "-pthread"], quick=dict(shards=2, cases=250), thorough=dict(shards=4, cases=8000)),
+           dict(name="c20", src="props/c20.cpp", deps=["lib/runners.hpp", "lib/pwc.hpp"], fuzz=dict(seconds=60))],
     rule="2/3 of the cases: one generated run (PLAIN / VEGAS / multi-channel with 1..40 PWC channels; weight pattern equal / "
          "one large / increasing / ties / disabled / two minimal and many distinct / generated; integrand ordinary, "
          "identically zero, constant, NaN everywhere, zero-or-inf; 0..4 iterations; target 0 or 10^-2..1) executed under all "
